@@ -2,7 +2,7 @@
 import importlib
 import lib
 
-FAMILIES = ["forkchoice", "helpers", "forks", "beacon", "gossip", "beacon_neg", "genesis", "ssz", "statestore", "faults", "epc", "locks"]
+FAMILIES = ["forkchoice", "helpers", "forks", "beacon", "gossip", "beacon_neg", "genesis", "ssz", "statestore", "faults", "epc", "locks", "shuffle", "pubkeys", "pools"]
 
 
 def main(args):
